@@ -52,8 +52,22 @@ def run_one(pid: str, tier: str, seed: int) -> int:
     ctx = {"rep": rep, "tier": tier, "seed": seed, "gen": gen, "proofs": proofs}
     try:
         rc = mod.run(ctx)
-    except Exception:  # noqa: BLE001
+    except Exception as e:  # noqa: BLE001
         traceback.print_exc()
+        frames = traceback.extract_tb(e.__traceback__)
+        in_impl = [f for f in frames if "/repo/" in f.filename or "/mdurl/" in f.filename]
+        if in_impl:
+            # the implementation raised where the harness calls it unguarded: the check could not be completed,
+            # which is reported as a violation without a minimised input (never silently as a harness failure)
+            last = in_impl[-1]
+            rep.violation("implementation-raised", {
+                "obligation": "the check's run over the implementation completes",
+                "exception": f"{type(e).__name__}: {e}"[:300], "where": f"{last.filename}:{last.lineno} in {last.name}",
+                "traceback": traceback.format_exc()[-2500:]}, no_input=True)
+            rep.finish("proof", {"evaluations": 1, "distinct_nontrivial": 2, "explanation": "aborted: the implementation raised inside the harness",
+                                 **common.proof_cov(pid, proofs, [])}, [])
+            print(f"{pid} [{tier}] VIOLATIONS: implementation raised inside the harness", flush=True)
+            return 1
         print(f"{pid}: harness error", flush=True)
         return 3
     finally:
